@@ -115,9 +115,12 @@ pub mod checks {
 
     pub fn e2e_one<T: Queryable>(q: &JpQuery, doc: &T, docv: &Value, rep: &mut Report, tag: &str, ids: (usize, usize)) -> Option<Vec<(usize, String)>> {
         rep.evaluations += 1;
-        let want = Ctx { root: doc }.query(q);
+        let mut union_multi = false;
+        let want = { let c = Ctx::new(doc); let r = c.query(q); union_multi = c.union_multi.get(); r };
         let got = catch_unwind(AssertUnwindSafe(|| js_path_process(q, doc)));
-        let feats = features(&q.segments, docv);
+        let mut feats = features(&q.segments, docv);
+        // the known finding on union order needs a multi-selector segment that receives MORE THAN ONE input node
+        if !union_multi { feats.retain(|f| f != "multi-selector-segment"); }
         let w = |extra: Value| json!({"query": show(q), "doc": docv, "qi": ids.0, "di": ids.1, "instance": tag, "detail": extra});
         let got: Vec<QueryRef<T>> = match got {
             Err(_) => { { let o = format!("{}.no_panic", rep.group); rep.fail(&o, &feats, w(json!("panic"))); } return None; }
@@ -282,12 +285,13 @@ pub mod checks {
                 if let Some((a, b)) = only { if (ci, di) != (a, b) { continue; } } else if (ci + di) % 5 != 0 { continue; }
                 rep.evaluations += 1;
                 // input nodelist: the children of the document (several input nodes) or the root alone
-                let ctx = Ctx { root: d };
+                let ctx = Ctx::new(d);
                 let input: Vec<N<Value>> = { let r = N { v: d, path: "$".to_string() }; let mut v = children(&r); if v.is_empty() { v.push(r); } v };
                 let want: Vec<(usize, String)> = input.iter().flat_map(|n| c.iter().flat_map(|s| ctx.select(s, n)).collect::<Vec<_>>()).map(|n| (n.v as *const Value as usize, n.path)).collect();
                 let st = State::data(d, Data::Refs(input.iter().map(|n| Pointer::new(n.v, n.path.clone())).collect()));
                 let got = catch_unwind(AssertUnwindSafe(|| ptr_seq(crate::query::segment::verif_x::process_selectors(st, c).data)));
-                let feats = features(&[Segment::Selectors(c.clone())], d);
+                let mut feats = features(&[Segment::Selectors(c.clone())], d);
+                if input.len() <= 1 { feats.retain(|f| f != "multi-selector-segment"); }
                 let w = |g: &Vec<(usize, String)>| json!({"selectors": format!("{:?}", c), "doc": d, "qi": ci, "di": di, "observed": g.iter().map(|x| &x.1).collect::<Vec<_>>(), "expected": want.iter().map(|x| &x.1).collect::<Vec<_>>()});
                 match got {
                     Err(_) => rep.fail("process_selectors.no_panic", &feats, w(&vec![])),
@@ -367,7 +371,7 @@ pub mod checks {
         let subjects = [json!("ab"), json!("xb"), json!("ax"), json!("a"), json!("b"), json!(""), json!("abc"), json!("aXb"), json!("é"), json!("a\nb"), json!("1"), json!("a.b"), json!("^a$"),
                         json!(1), json!(null), json!(true), json!(["a"]), json!({"a": "a"})];
         let patterns = [json!("a|b"), json!("a"), json!("a."), json!("^a"), json!("b$"), json!("^a$|b"), json!("[ab]+"), json!("a*"), json!(".*"), json!("\\."), json!("a\\.b"), json!("é"), json!("\\p{L}"),
-                        json!("(a|b)c?"), json!("[^a]"), json!("a{2}"), json!("("), json!("[a"), json!(1), json!(null), json!(""), json!("^$"), json!("\\^a\\$")];
+                        json!("(a|b)c?"), json!("a|ab"), json!("(a|ab)c?"), json!("a?|ab"), json!("ab|a"), json!("'"), json!("\""), json!("'é"), json!("'a'"), json!("[^a]"), json!("a{2}"), json!("("), json!("[a"), json!(1), json!(null), json!(""), json!("^$"), json!("\\^a\\$")];
         for (si, s) in subjects.iter().enumerate() {
             for (pi, p) in patterns.iter().enumerate() {
                 for search in [false, true] {
@@ -379,6 +383,7 @@ pub mod checks {
                     let ob = if search { "regex.search" } else { "regex.match" };
                     match got {
                         Ok(Some(Value::Bool(b))) if b == want => {}
+                        Err(_) => rep.fail("regex.no_panic", &[], json!({"subject": s, "pattern": p, "qi": si, "di": pi, "search": search})),
                         other => rep.fail(ob, &[], json!({"subject": s, "pattern": p, "qi": si, "di": pi, "observed": format!("{:?}", other.ok().flatten()), "expected": want})),
                     }
                 }
@@ -412,6 +417,20 @@ pub mod checks {
                 }
             }
         }
+        // C15: the same contract at the second Queryable implementation, whose objects keep insertion order
+        let o = |v: Vec<(&str, J)>| J::Obj(v.into_iter().map(|(k, x)| (k.to_string(), x)).collect());
+        let jvals = vec![o(vec![("x", J::Int(1)), ("y", J::Int(2))]), o(vec![("y", J::Int(2)), ("x", J::Int(1))]), o(vec![("y", J::Float(2.0)), ("x", J::Int(1))]),
+                         o(vec![("x", J::Int(1))]), o(vec![("x", J::Int(2)), ("y", J::Int(1))]), J::Arr(vec![o(vec![("a", J::Int(1)), ("b", J::Null)])]), J::Arr(vec![o(vec![("b", J::Null), ("a", J::Float(1.0))])]),
+                         J::Null, J::Obj(vec![]), J::Arr(vec![]), J::Int(1), J::Float(1.0), J::Str("a".into())];
+        let jroot = J::Null;
+        for (ai, a) in jvals.iter().enumerate() {
+            for (bi, b) in jvals.iter().enumerate() {
+                rep.evaluations += 1; rep.nontrivial += 1;
+                let st = |v: &J| State::data(&jroot, Data::Value(v.clone()));
+                let e = crate::query::comparison::verif_x::eq(st(a), st(b));
+                if e != json_eq(a, b) { rep.fail("eq.structural", &[], json!({"instance": "kjson::J", "lhs": format!("{:?}", a), "rhs": format!("{:?}", b), "qi": ai, "di": bi, "observed": e, "expected": json_eq(a, b)})); }
+            }
+        }
         rep.samples.push(json!({"lhs": [1], "rhs": [1.0], "json_eq": true}));
         rep
     }
@@ -428,16 +447,22 @@ pub mod checks {
             for i in range.iter().chain([big, -big].iter()) {
                 rep.evaluations += 1;
                 let want: Vec<usize> = rfc_index(len as i128, *i as i128).map(|k| vec![&arr[k as usize] as *const Value as usize]).unwrap_or_default();
-                let got: Vec<usize> = ptr_seq(crate::query::selector::process_index(Pointer::new(&doc, "$".to_string()), i)).iter().map(|x| x.0).collect();
+                let got = catch_unwind(AssertUnwindSafe(|| ptr_seq(crate::query::selector::process_index(Pointer::new(&doc, "$".to_string()), i)).iter().map(|x| x.0).collect::<Vec<usize>>()));
                 if !want.is_empty() { rep.nontrivial += 1; }
-                if got != want { rep.fail("process_index.select", &[], json!({"len": len, "index": i})); }
+                match got {
+                    Err(_) => rep.fail("process_index.no_panic", &[], json!({"len": len, "index": i})),
+                    Ok(got) => if got != want { rep.fail("process_index.select", &[], json!({"len": len, "index": i})); }
+                }
             }
             for s in &opts { for e in &opts { for st in &opts {
                 rep.evaluations += 1;
                 let want: Vec<usize> = rfc_slice(len as i128, *s, *e, *st).iter().map(|k| &arr[*k as usize] as *const Value as usize).collect();
-                let got: Vec<usize> = ptr_seq(crate::query::selector::verif_x::process_slice(Pointer::new(&doc, "$".to_string()), s, e, st)).iter().map(|x| x.0).collect();
+                let got = catch_unwind(AssertUnwindSafe(|| ptr_seq(crate::query::selector::verif_x::process_slice(Pointer::new(&doc, "$".to_string()), s, e, st)).iter().map(|x| x.0).collect::<Vec<usize>>()));
                 if !want.is_empty() { rep.nontrivial += 1; }
-                if got != want { rep.fail("process_slice.select", &[], json!({"len": len, "start": s, "end": e, "step": st, "observed_len": got.len(), "expected_len": want.len()})); }
+                match got {
+                    Err(_) => rep.fail("process_slice.no_panic", &[], json!({"len": len, "start": s, "end": e, "step": st})),
+                    Ok(got) => if got != want { rep.fail("process_slice.select", &[], json!({"len": len, "start": s, "end": e, "step": st, "observed_len": got.len(), "expected_len": want.len()})); }
+                }
             } } }
         }
         rep.samples.push(json!({"len": 5, "slice": [1, null, 2], "indices": rfc_slice(5, Some(1), None, Some(2)).iter().map(|x| *x as i64).collect::<Vec<_>>()}));
